@@ -3,13 +3,32 @@ import Restli.Gen.Tables
 /-! Model of `codegen/utils.CleanTargetDir` (v2/codegen/utils/codefile.go) over an abstract
 directory tree. The filesystem calls are assumed to succeed and to behave like POSIX
 readdir/unlink/rmdir (trusted base); the one error the code can produce by itself — the
-manifest name being a non-empty directory, on which `os.Remove` fails — is modelled. -/
+manifest name being a non-empty directory, on which `os.Remove` fails — is modelled.
+
+Symbolic links. `os.ReadDir` reports a symbolic link with `DirEntry.IsDir() = false` whatever it
+points to (a directory inside or outside the target, an ancestor, a file, nothing), and the code
+asks nothing else about an entry: a link is a non-directory entry. It is therefore a `Node.file`
+whose `Leaf` is `.link dest`; like a regular file it is unlinked (`os.Remove` removes the link, not
+what it points to) when its NAME carries the generated suffix or is the manifest name, and left
+alone otherwise. Nothing in the model ever reads `dest`: links are never followed
+(`c20_links_not_followed`). The target path itself is assumed to be a real directory. -/
 namespace Restli.CleanDir
 
 abbrev Name := String
 
+/-- what a non-directory entry holds: a regular file (content id) or a symbolic link (the text of
+its destination, never resolved by the cleaner) -/
+inductive Leaf where
+  | data (content : Nat)
+  | link (dest : String)
+deriving Repr, Inhabited, DecidableEq
+
+/-- numerals denote regular files -/
+instance : OfNat Leaf n := ⟨.data n⟩
+
 inductive Node where
-  | file (name : Name) (content : Nat)
+  /-- an entry with `DirEntry.IsDir() = false`: regular file or symbolic link -/
+  | file (name : Name) (leaf : Leaf)
   | dir (name : Name) (children : List Node)
 deriving Repr, Inhabited
 
@@ -32,7 +51,8 @@ def ownV2 : Own := ownOf Gen.genSuffix Gen.manifestFile
 def ownRoot : Own := ownOf GenRoot.genSuffix GenRoot.manifestFile
 
 /-- `os.Remove(targetDir/ManifestFile)` fails (with something other than not-exist) iff that
-entry is a non-empty directory. -/
+entry is a non-empty directory (a symbolic link of that name, even one to a non-empty directory, is
+simply unlinked). -/
 def manifestBlocked (O : Own) : List Node → Bool
   | [] => false
   | .file _ _ :: rest => manifestBlocked O rest
@@ -82,5 +102,24 @@ end
 def clean (O : Own) (dot : Bool) : Option Node → R
   | none => ⟨none, false⟩
   | some t => cleanOuter O dot t
+
+/-- the surroundings of a call: the target and a sibling directory beside it ("outside"), to which
+links inside the target may point -/
+structure World where
+  target : Option Node
+  outside : Option Node
+deriving Repr
+
+/-- a world after the call, with the error flag -/
+structure WR where
+  res : R
+  outside : Option Node
+deriving Repr
+
+/-- `CleanTargetDir(target)` in its surroundings. The function is handed nothing but the target
+path and derives every path it touches by `filepath.Join(targetDir, entryName)` from listings it
+never resolves links in, so the sibling directory is passed through. -/
+def cleanWorld (O : Own) (dot : Bool) (w : World) : WR :=
+  ⟨clean O dot w.target, w.outside⟩
 
 end Restli.CleanDir
